@@ -11,7 +11,7 @@
 (*         that other modes (worker thread, thread pool) can reuse them.   *)
 (* Part 2  the two regions the code runs under `_mx`: get_expired_lk       *)
 (*         (:415-425) and remove (:127-139), again as pure operators.      *)
-(* Part 3  Mode = "manual": one action per public call of a single client  *)
+(* Part 3  Mode = "manual": one action per public call of a single client: *)
 (*         schedule/sleep_until, get_expired, remove, cancel, ~scheduler,  *)
 (*         and interval() driven through a stop token.                     *)
 (* Part 4  Mode = "start": start(awaitable) in one thread (:228-282):      *)
@@ -23,9 +23,22 @@
 (* Part 5  properties (C12).                                               *)
 (*                                                                         *)
 (* A heap entry is [tp, id, k]: time point, identifier (0 = nullptr) and   *)
-(* the number of the sleep future its promise points to; k = 0 means the   *)
+(* the slot of the sleep future its promise points to; k = 0 means the     *)
 (* promise was moved out (cancel/remove through find_if): an "empty        *)
 (* promise" entry that stays in the array until it surfaces.               *)
+(*                                                                         *)
+(* The state is history free: a sleep occupies a slot 1..MaxSleeps while   *)
+(* it is pending; the step that completes it frees the slot (the next      *)
+(* sleep reuses the smallest free slot).  So MaxSleeps bounds the sleeps   *)
+(* pending AT THE SAME TIME, MaxHeap the array length; histories are       *)
+(* unbounded (the state graph is finite and cyclic) unless MaxOps bounds   *)
+(* them.  What a call RETURNS / which sleep a step completes is not kept   *)
+(* in the state either: it is an extra parameter of the action (bound by   *)
+(* \E in Next and fixed by a guard), so it shows in the action label of    *)
+(* the dumped graph -- `Cancel(1,"exc",2)`: cancel(id 1) returned true and *)
+(* completed the sleep in slot 2 with await_canceled_exception;            *)
+(* `Cancel(1,"exc",0)`: it returned false -- and the replayer compares it  *)
+(* with what the real call returned / did.                                 *)
 (***************************************************************************)
 EXTENDS Integers, Sequences, FiniteSets, TLC
 
@@ -34,10 +47,9 @@ CONSTANTS Mode,        \* "manual" | "start"
           Nows,        \* manual: values of `now` passed to get_expired()
           Ids,         \* identifiers passed to schedule(); 0 is nullptr
           CancelIds,   \* identifiers passed to cancel()/remove()
-          MaxSleeps,   \* bound: number of sleep futures created
-          MaxOps,      \* manual: bound on the number of calls (0: unbounded, the graph is finite anyway)
-          MaxCancels,  \* start: bound on the number of cancel() calls
-          TrackAt,     \* manual: record in the future the `now` at which it completed (ghost)
+          MaxSleeps,   \* bound: sleeps pending at the same time (slots)
+          MaxHeap,     \* bound: length of the array (emptied entries included)
+          MaxOps,      \* bound on the number of calls (manual) / commands (start); 0 = unbounded (manual only)
           AllowRemove, \* manual: remove() calls are generated
           Interval,    \* manual: 0 = no interval generator, else its period (uses identifier IntervalId)
           NC           \* start: number of coroutines (1 = the awaited one)
@@ -47,26 +59,25 @@ IntervalId == 9        \* &tag inside the interval() coroutine frame: distinct f
 
 VARIABLES
     heap,      \* _scheduled, the array
-    fut,       \* per sleep future k: [st, tp, at, sa, co]
-               \*   st: "pending" | "done" | "canceled" (promise dropped: no value) | "exc" (await_canceled_exception)
-               \*       | "custom" (the exception handed to cancel(id,e))
-               \*   tp: requested time point; at: `now` at which it completed normally; sa: clock when scheduled
-               \*   co: coroutine that awaits it (start mode), 0 in manual mode, -1 the interval generator
-    ret,       \* result of the last call: [kind, v]
-    nops,      \* number of calls so far (manual) / cancel calls (start)
+    fut,       \* per slot k: [st, tp, sa, co]  st: "free" | "pending"; tp: requested time point;
+               \*   sa: clock when scheduled; co: awaiting coroutine (start mode), 0 manual client, -1 interval generator
+    nops,      \* number of calls so far
     destroyed, \* ~scheduler ran
     now,       \* the (virtual) clock; constant 0 in manual mode
-    gen,       \* manual, interval(): [st, stop, n]  st: "none" | "fresh" | "sleep" | "yield" | "done"
+    gen,       \* manual, interval(): [st, stp]  st: "none" | "sleep" | "yield" | "done"; stp: stop requested
     \* start mode
     rq,        \* coro_queue: FIFO of ready entities (0 = worker coroutine, c >= 1 = client coroutines)
     run,       \* entity that executes now, -1 nobody
-    cst,       \* per client coroutine "ready" | "sleep" | "done"
+    cst,       \* per client coroutine [st: "ready" | "sleep" | "done", wst, wat]: how and when (virtual time)
+               \*   its last sleep ended, kept until it suspends again.  wst: "none" | "done" (normal) |
+               \*   "canceled" (promise dropped: no value) | "exc" (await_canceled_exception) | "custom" (the
+               \*   exception handed to cancel(id,e))
     stop,      \* stps.request_stop() happened (the awaited coroutine finished)
     wpc,       \* worker: "poll" | "wait" | "exit"
     wdl,       \* deadline the worker is about to wait_until
     phase      \* "manual" | "pre" (awaitable started, worker not yet) | "run" | "returned" | "destroyed" | "hung"
 
-vars == <<heap, fut, ret, nops, destroyed, now, gen, rq, run, cst, stop, wpc, wdl, phase>>
+vars == <<heap, fut, nops, destroyed, now, gen, rq, run, cst, stop, wpc, wdl, phase>>
 
 -----------------------------------------------------------------------------
 (* Part 1: the array and the libstdc++ heap algorithms.  Indices are the   *)
@@ -134,15 +145,15 @@ IsHeap(h) == \A i \in 1..(Len(h) - 1) : ~Comp(h[CDiv(i - 1, 2) + 1], h[i + 1])
 (* Part 2: the regions under _mx *)
 
 (* get_expired_lk(now), scheduler.h:415-425.  Result: the array afterwards, k = the promise returned
-   (0: none), tp = its time point, next = the time point returned when no promise is. *)
+   (0: none), next = the time point returned when no promise is. *)
 RECURSIVE GetExpiredLk(_, _)
 GetExpiredLk(h, t) ==
     IF Len(h) > 0 /\ (At(h, 0).tp <= t \/ At(h, 0).k = 0)
       THEN LET top == At(h, 0)
                h2 == PopItem(h)
-           IN IF top.k # 0 THEN [heap |-> h2, k |-> top.k, tp |-> top.tp, next |-> 0]
+           IN IF top.k # 0 THEN [heap |-> h2, k |-> top.k, next |-> 0]
               ELSE GetExpiredLk(h2, t)
-      ELSE [heap |-> h, k |-> 0, tp |-> 0, next |-> IF Len(h) = 0 THEN Inf ELSE At(h, 0).tp]
+      ELSE [heap |-> h, k |-> 0, next |-> IF Len(h) = 0 THEN Inf ELSE At(h, 0).tp]
 
 (* remove(id), scheduler.h:127-139: matching entries on top are popped (an emptied one is skipped,
    :129-133); otherwise find_if returns the FIRST entry IN ARRAY ORDER with that identifier whose
@@ -159,144 +170,144 @@ RemoveLk(h, id) ==
                 IN [heap |-> Put(h, i, [At(h, i) EXCEPT !.k = 0]), k |-> At(h, i).k]
 
 -----------------------------------------------------------------------------
-(* futures *)
+(* sleep futures *)
 
-NewFut(tp, co) == [st |-> "pending", tp |-> tp, at |-> 0, sa |-> now, co |-> co]
-Resolve(f, k, st, t) == [f EXCEPT ![k] = [@ EXCEPT !.st = st, !.at = t]]
-R(kind, v) == [kind |-> kind, v |-> v]
+Slots == 1..MaxSleeps
+Slots0 == 0..MaxSleeps
+Excs == {"exc", "custom"}      \* cancel(id): await_canceled_exception / cancel(id,e): the caller's exception
+FreeRec == [st |-> "free", tp |-> 0, sa |-> 0, co |-> 0]
+Pending(k) == fut[k].st = "pending"
+HasFree == \E k \in Slots : ~Pending(k)
+FreeSlot == CHOOSE k \in Slots : ~Pending(k) /\ \A j \in Slots : j < k => Pending(j)
+NewFut(f, k, tp, co) == [f EXCEPT ![k] = [st |-> "pending", tp |-> tp, sa |-> now, co |-> co]]
+Free(f, k) == IF k = 0 THEN f ELSE [f EXCEPT ![k] = FreeRec]
+B(b) == IF b THEN 1 ELSE 0
 NoGen == [st |-> "none", stp |-> FALSE]
+NoWake == [st |-> "ready", wst |-> "none", wat |-> 0]
 
 Live(h) == {i \in 1..Len(h) : h[i].k # 0}
 LiveWithId(h, id) == {i \in Live(h) : h[i].id = id}
+CanSchedule == HasFree /\ Len(heap) < MaxHeap
+AllTps == TPs \cup (IF Interval # 0 THEN {Interval} ELSE {}) \cup {Inf}
 
 Init ==
-    /\ heap = <<>> /\ fut = <<>> /\ ret = R("none", 0) /\ nops = 0 /\ destroyed = FALSE /\ now = 0
-    /\ gen = NoGen
+    /\ heap = <<>> /\ fut = [k \in Slots |-> FreeRec]
+    /\ nops = 0 /\ destroyed = FALSE /\ now = 0 /\ gen = NoGen
     /\ stop = FALSE /\ wpc = "poll" /\ wdl = 0
     /\ IF Mode = "manual"
          THEN /\ rq = <<>> /\ run = -1 /\ cst = <<>> /\ phase = "manual"
          ELSE \* start(awt): the awaited coroutine 1 is started first (callback_await_alloc, :255/:273); it
               \* spawns the others (detach() => appended to the coro_queue) and runs until it suspends.
-              /\ rq = [i \in 1..(NC - 1) |-> i + 1] /\ run = 1 /\ cst = [c \in 1..NC |-> "ready"] /\ phase = "pre"
+              /\ rq = [i \in 1..(NC - 1) |-> i + 1] /\ run = 1 /\ cst = [c \in 1..NC |-> NoWake] /\ phase = "pre"
 
 -----------------------------------------------------------------------------
-(* Part 3: manual mode -- one client, one action per public call *)
+(* Part 3: manual mode -- one client, one action per public call.  The last parameter(s) of every
+   action are its OUTPUT (see the head comment). *)
 
 StartUnch == UNCHANGED <<now, rq, run, cst, stop, wpc, wdl, phase>>
 CanCall == Mode = "manual" /\ ~destroyed /\ (MaxOps = 0 \/ nops < MaxOps)
 Tick == nops' = IF MaxOps = 0 THEN nops ELSE nops + 1
 
-(* sleep_until(tp,id) -> schedule(), scheduler.h:89-97,152-156 *)
-Schedule(tp, id) ==
-    /\ CanCall /\ Len(fut) < MaxSleeps
-    /\ heap' = HeapInsert(heap, [tp |-> tp, id |-> id, k |-> Len(fut) + 1])
-    /\ fut' = Append(fut, NewFut(tp, 0))
-    /\ ret' = R("sched", IF NotifyNeeded(heap, tp) THEN 1 ELSE 0)
+(* the interval generator resumed because its sleep ended: normally -> next = now()+dur; co_yield
+   (scheduler.h:319-320) => "yield"; with an exception -> it leaves the loop (:324) => "done" *)
+GenAfter(g, k, st) ==
+    IF k # 0 /\ fut[k].co = -1
+      THEN [g EXCEPT !.st = IF st = "done" THEN "yield" ELSE "done"]
+      ELSE g
+
+(* sleep_until(tp,id) -> schedule(), scheduler.h:89-97,152-156.  ntf: _cond.notify_all() was called *)
+Schedule(tp, id, ntf) ==
+    /\ CanCall /\ CanSchedule
+    /\ ntf = B(NotifyNeeded(heap, tp))
+    /\ heap' = HeapInsert(heap, [tp |-> tp, id |-> id, k |-> FreeSlot])
+    /\ fut' = NewFut(fut, FreeSlot, tp, 0)
     /\ Tick
     /\ UNCHANGED <<destroyed, gen>> /\ StartUnch
 
-(* the interval generator resumed because its sleep completed normally, scheduler.h:319-320:
-   next = now()+dur; co_yield => its caller's future gets a value *)
-GenAfter(g, k, st) ==
-    IF k # 0 /\ fut[k].co = -1
-      THEN IF st = "done" THEN [g EXCEPT !.st = "yield"]      \* co_yield counter
-           ELSE [g EXCEPT !.st = "done"]                       \* exception leaves the loop (:324) or is propagated
-      ELSE g
-
-(* get_expired(now), scheduler.h:107-110; the client resolves the promise it got *)
-GetExpired(t) ==
+(* get_expired(now), scheduler.h:107-110.  Output: ("promise", k) -- the client resolves the promise
+   it got, the sleep in slot k completes normally -- or ("time", time point) *)
+GetExpired(t, kind, v) ==
     /\ CanCall
     /\ LET r == GetExpiredLk(heap, t) IN
+        /\ kind = (IF r.k # 0 THEN "promise" ELSE "time")
+        /\ v = (IF r.k # 0 THEN r.k ELSE r.next)
         /\ heap' = r.heap
-        /\ IF r.k # 0
-             THEN /\ fut' = Resolve(fut, r.k, "done", IF TrackAt THEN t ELSE 0)
-                  /\ ret' = R("promise", r.k)
-                  /\ gen' = GenAfter(gen, r.k, "done")
-             ELSE /\ ret' = R("time", r.next)
-                  /\ UNCHANGED <<fut, gen>>
+        /\ fut' = Free(fut, r.k)
+        /\ gen' = GenAfter(gen, r.k, "done")
     /\ Tick
     /\ UNCHANGED destroyed /\ StartUnch
 
-(* remove(id), scheduler.h:127-139; the client drops the promise it got => no-value *)
-Remove(id) ==
+(* remove(id), scheduler.h:127-139.  Output k: the promise of the sleep in slot k (the client drops it
+   => that sleep ends with no value, "canceled"), 0: an empty promise *)
+Remove(id, k) ==
     /\ CanCall /\ AllowRemove
     /\ LET r == RemoveLk(heap, id) IN
+        /\ k = r.k
         /\ heap' = r.heap
-        /\ IF r.k # 0
-             THEN /\ fut' = Resolve(fut, r.k, "canceled", 0)
-                  /\ ret' = R("removed", r.k)
-                  /\ gen' = GenAfter(gen, r.k, "canceled")
-             ELSE /\ ret' = R("empty", 0)
-                  /\ UNCHANGED <<fut, gen>>
+        /\ fut' = Free(fut, r.k)
+        /\ gen' = GenAfter(gen, r.k, "canceled")
     /\ Tick
     /\ UNCHANGED destroyed /\ StartUnch
 
-(* cancel(id) :185-187 (x = "exc": await_canceled_exception) / cancel(id,e) :198-205 (x = "custom") *)
-Cancel(id, x) ==
+(* cancel(id) :185-187 (x = "exc") / cancel(id,e) :198-205 (x = "custom").  Output k: true, the sleep
+   in slot k completed with that exception; 0: false *)
+Cancel(id, x, k) ==
     /\ CanCall
     /\ LET r == RemoveLk(heap, id) IN
+        /\ k = r.k
         /\ heap' = r.heap
-        /\ IF r.k # 0
-             THEN /\ fut' = Resolve(fut, r.k, x, 0)
-                  /\ ret' = R("true", 0)
-                  /\ gen' = GenAfter(gen, r.k, x)
-             ELSE /\ ret' = R("false", 0)
-                  /\ UNCHANGED <<fut, gen>>
+        /\ fut' = Free(fut, r.k)
+        /\ gen' = GenAfter(gen, r.k, x)
     /\ Tick
     /\ UNCHANGED destroyed /\ StartUnch
 
 (* interval(dur, token), scheduler.h:306-327, in manual mode; the clock reads 0.
    IntervalCall: the client calls the generator (`gen()`): it runs to sleep_until(next, &tag) (:317-318),
-   or, when the token is already stopped, leaves the loop and finishes (:316). *)
-IntervalCall ==
+   or, when the token is already stopped, leaves the loop and finishes (:316).  Output: notified *)
+IntervalCall(ntf) ==
     /\ CanCall /\ Interval # 0 /\ gen.st \in {"none", "yield"}
     /\ IF gen.stp
-         THEN /\ gen' = [gen EXCEPT !.st = "done"]
-              /\ ret' = R("gen", 0)
+         THEN /\ ntf = 0
+              /\ gen' = [gen EXCEPT !.st = "done"]
               /\ UNCHANGED <<heap, fut>>
-         ELSE /\ Len(fut) < MaxSleeps
-              /\ heap' = HeapInsert(heap, [tp |-> now + Interval, id |-> IntervalId, k |-> Len(fut) + 1])
-              /\ fut' = Append(fut, NewFut(now + Interval, -1))
+         ELSE /\ CanSchedule
+              /\ ntf = B(NotifyNeeded(heap, now + Interval))
+              /\ heap' = HeapInsert(heap, [tp |-> now + Interval, id |-> IntervalId, k |-> FreeSlot])
+              /\ fut' = NewFut(fut, FreeSlot, now + Interval, -1)
               /\ gen' = [gen EXCEPT !.st = "sleep"]
-              /\ ret' = R("gen", IF NotifyNeeded(heap, now + Interval) THEN 1 ELSE 0)
     /\ Tick
     /\ UNCHANGED destroyed /\ StartUnch
 
-(* request_stop() on the token: the stop callback (:309-311) calls cancel(&tag) *)
-IntervalStop ==
-    /\ CanCall /\ Interval # 0 /\ ~gen.stp /\ gen.st # "none"
-    /\ LET r == RemoveLk(heap, IntervalId) IN
+(* request_stop() on the token: the stop callback (:309-311), if the generator has started (the
+   callback object lives in its frame), calls cancel(&tag).  Output k: the slot cancelled or 0 *)
+IntervalStop(k) ==
+    /\ CanCall /\ Interval # 0 /\ ~gen.stp
+    /\ LET r == IF gen.st = "none" THEN [heap |-> heap, k |-> 0] ELSE RemoveLk(heap, IntervalId) IN
+        /\ k = r.k
         /\ heap' = r.heap
-        /\ IF r.k # 0
-             THEN /\ fut' = Resolve(fut, r.k, "exc", 0)
-                  /\ gen' = [GenAfter(gen, r.k, "exc") EXCEPT !.stp = TRUE]
-                  /\ ret' = R("stop", 1)
-             ELSE /\ gen' = [gen EXCEPT !.stp = TRUE]
-                  /\ ret' = R("stop", 0)
-                  /\ UNCHANGED fut
+        /\ fut' = Free(fut, r.k)
+        /\ gen' = [GenAfter(gen, r.k, "exc") EXCEPT !.stp = TRUE]
     /\ Tick
     /\ UNCHANGED destroyed /\ StartUnch
 
 (* ~scheduler with no worker (:330-335): the vector is destroyed, every promise still set is
-   dropped => its future becomes ready without a value *)
-DropAll(f) == [k \in 1..Len(f) |-> IF f[k].st = "pending" THEN [f[k] EXCEPT !.st = "canceled"] ELSE f[k]]
-
+   dropped => its future becomes ready without a value (a generator sleeping in interval() ends) *)
 Destroy ==
     /\ Mode = "manual" /\ ~destroyed
-    /\ gen.st # "sleep"       \* the generator must be destroyed parked on co_yield (documented, :301)
     /\ destroyed' = TRUE
-    /\ fut' = DropAll(fut)
+    /\ fut' = [k \in Slots |-> FreeRec]
     /\ heap' = <<>>
-    /\ ret' = R("none", 0)
-    /\ UNCHANGED <<nops, gen>> /\ StartUnch
+    /\ gen' = IF gen.st = "sleep" THEN [gen EXCEPT !.st = "done"] ELSE gen
+    /\ UNCHANGED nops /\ StartUnch
 
 ManualNext ==
-    \/ \E tp \in TPs, id \in Ids : Schedule(tp, id)
-    \/ \E t \in Nows : GetExpired(t)
-    \/ \E id \in CancelIds : Remove(id)
-    \/ \E id \in CancelIds, x \in {"exc", "custom"} : Cancel(id, x)
-    \/ IntervalCall
-    \/ IntervalStop
+    \/ \E tp \in TPs, id \in Ids, ntf \in {0, 1} : Schedule(tp, id, ntf)
+    \/ \E t \in Nows : \/ \E k \in Slots : GetExpired(t, "promise", k)
+                        \/ \E v \in AllTps : GetExpired(t, "time", v)
+    \/ \E id \in CancelIds, k \in Slots0 : Remove(id, k)
+    \/ \E id \in CancelIds, x \in Excs, k \in Slots0 : Cancel(id, x, k)
+    \/ \E ntf \in {0, 1} : IntervalCall(ntf)
+    \/ \E k \in Slots0 : IntervalStop(k)
     \/ Destroy
 
 -----------------------------------------------------------------------------
@@ -306,7 +317,7 @@ ManualNext ==
    the head of the queue (flush_queue / pause::await_suspend :233-241); a coroutine made ready by a
    resolved promise is appended (suspend_point::suspend_now, suspend_point.h:129-135).
 
-   Next(q, st, ph): who runs after the current entity gave up control, q = queue, st = stop flag.
+   NextRun(q, st, ph): who runs after the current entity gave up control, q = queue, st = stop flag.
      - the worker coroutine resumed from `co_await pause()` with the stop flag set leaves its loop
        (:381,:389) and ends: it is skipped here (nothing observable happens);
      - in phase "pre" an empty queue ends the temporary queue of callback_await_alloc; start()
@@ -316,8 +327,8 @@ NextRun(q, st, ph) ==
     IF q = <<>>
       THEN IF ph = "pre" THEN (IF st THEN [run |-> -1, rq |-> <<>>, phase |-> "run", wpc |-> "exit"]
                                      ELSE [run |-> 0, rq |-> <<>>, phase |-> "run", wpc |-> "poll"])
-           ELSE [run |-> -1, rq |-> <<>>, phase |-> ph, wpc |-> IF ph = "run" THEN "exit" ELSE wpc]
-      ELSE IF Head(q) = 0 /\ st THEN LET n == NextRun(Tail(q), st, ph) IN [n EXCEPT !.wpc = "exit"]
+           ELSE [run |-> -1, rq |-> <<>>, phase |-> ph, wpc |-> wpc]
+      ELSE IF Head(q) = 0 /\ st THEN [NextRun(Tail(q), st, ph) EXCEPT !.wpc = "exit"]
            ELSE [run |-> Head(q), rq |-> Tail(q), phase |-> ph, wpc |-> wpc]
 
 Yield(q, st) ==
@@ -325,29 +336,31 @@ Yield(q, st) ==
     /\ run' = n.run /\ rq' = n.rq /\ phase' = n.phase /\ wpc' = n.wpc
 
 Running(c) == Mode = "start" /\ phase \in {"pre", "run"} /\ run = c
+CanCmd == nops < MaxOps
+Woken(cs, c, st, at) == [cs EXCEPT ![c] = [st |-> "ready", wst |-> st, wat |-> at]]
 
 (* co_await sched.sleep_until(tp,id): schedule() and suspend *)
-CoSleep(c, tp, id) ==
-    /\ Running(c) /\ c >= 1 /\ Len(fut) < MaxSleeps
-    /\ heap' = HeapInsert(heap, [tp |-> tp, id |-> id, k |-> Len(fut) + 1])
-    /\ fut' = Append(fut, NewFut(tp, c))
-    /\ ret' = R("sched", IF NotifyNeeded(heap, tp) THEN 1 ELSE 0)
-    /\ cst' = [cst EXCEPT ![c] = "sleep"]
+CoSleep(c, tp, id, ntf) ==
+    /\ Running(c) /\ c >= 1 /\ CanCmd /\ CanSchedule
+    /\ ntf = B(NotifyNeeded(heap, tp))
+    /\ heap' = HeapInsert(heap, [tp |-> tp, id |-> id, k |-> FreeSlot])
+    /\ fut' = NewFut(fut, FreeSlot, tp, c)
+    /\ cst' = [cst EXCEPT ![c] = [st |-> "sleep", wst |-> "none", wat |-> 0]]
     /\ Yield(rq, stop)
-    /\ UNCHANGED <<nops, destroyed, now, gen, stop, wdl>>
+    /\ nops' = nops + 1
+    /\ UNCHANGED <<destroyed, now, gen, stop, wdl>>
 
 (* bool r = sched.cancel(id[,e]): the sleeper is appended to the queue, the caller goes on *)
-CoCancel(c, id, x) ==
-    /\ Running(c) /\ c >= 1 /\ nops < MaxCancels
+CoCancel(c, id, x, k) ==
+    /\ Running(c) /\ c >= 1 /\ CanCmd
     /\ LET r == RemoveLk(heap, id) IN
+        /\ k = r.k
         /\ heap' = r.heap
+        /\ fut' = Free(fut, r.k)
         /\ IF r.k # 0
-             THEN /\ fut' = Resolve(fut, r.k, x, 0)
-                  /\ ret' = R("true", 0)
-                  /\ rq' = Append(rq, fut[r.k].co)
-                  /\ cst' = [cst EXCEPT ![fut[r.k].co] = "ready"]
-             ELSE /\ ret' = R("false", 0)
-                  /\ UNCHANGED <<fut, rq, cst>>
+             THEN /\ rq' = Append(rq, fut[r.k].co)
+                  /\ cst' = Woken(cst, fut[r.k].co, x, now)
+             ELSE UNCHANGED <<rq, cst>>
     /\ nops' = nops + 1
     /\ UNCHANGED <<destroyed, now, gen, run, stop, wpc, wdl, phase>>
 
@@ -355,30 +368,31 @@ CoCancel(c, id, x) ==
    to the awaiting callback_await coroutine, async.h:229-241) and calls stps.request_stop() (:252,:270) *)
 CoFinish(c) ==
     /\ Running(c) /\ c >= 1
-    /\ cst' = [cst EXCEPT ![c] = "done"]
+    /\ cst' = [cst EXCEPT ![c] = [st |-> "done", wst |-> "none", wat |-> 0]]
     /\ stop' = (stop \/ c = 1)
     /\ Yield(rq, stop \/ c = 1)
-    /\ ret' = R("none", 0)
     /\ UNCHANGED <<heap, fut, nops, destroyed, now, gen, wdl>>
 
 (* one turn of worker_coro<false> after `co_await pause()` returned, scheduler.h:388-411:
    lock; now = system_clock::now(); get_expired_lk(now);
    promise -> x() resolves it under the lock: the sleeper is appended to the queue; loop: unlock; pause
-   time point -> if coro_queue::can_block() (queue empty) wait_until(x), else loop: unlock; pause *)
-WorkerPoll ==
+   time point -> if coro_queue::can_block() (queue empty) wait_until(x), else loop: unlock; pause.
+   Output k: the slot whose sleep completed normally, or 0 *)
+WorkerPoll(k) ==
     /\ Running(0) /\ wpc = "poll"
     /\ LET r == GetExpiredLk(heap, now) IN
+        /\ k = r.k
         /\ heap' = r.heap
+        /\ fut' = Free(fut, r.k)
         /\ IF r.k # 0
-             THEN /\ fut' = Resolve(fut, r.k, "done", now)
-                  /\ cst' = [cst EXCEPT ![fut[r.k].co] = "ready"]
+             THEN /\ cst' = Woken(cst, fut[r.k].co, "done", now)
                   /\ Yield(rq \o <<fut[r.k].co, 0>>, stop)
                   /\ UNCHANGED wdl
-             ELSE /\ UNCHANGED <<fut, cst>>
+             ELSE /\ UNCHANGED cst
                   /\ IF rq = <<>>
                        THEN /\ wpc' = "wait" /\ wdl' = r.next /\ UNCHANGED <<run, rq, phase>>
                        ELSE /\ Yield(Append(rq, 0), stop) /\ UNCHANGED wdl
-    /\ UNCHANGED <<ret, nops, destroyed, now, gen, stop>>
+    /\ UNCHANGED <<nops, destroyed, now, gen, stop>>
 
 (* _cond.wait_until(lk, x), :407, under virtual time: nobody can notify (single thread), the wait
    ends at its deadline.  wait_until(time_point::max()) never ends: the thread hangs. *)
@@ -387,29 +401,29 @@ WorkerWait ==
     /\ IF wdl = Inf
          THEN /\ phase' = "hung" /\ UNCHANGED <<now, wpc>>
          ELSE /\ now' = (IF wdl > now THEN wdl ELSE now) /\ wpc' = "poll" /\ UNCHANGED phase
-    /\ UNCHANGED <<heap, fut, ret, nops, destroyed, gen, rq, run, cst, stop, wdl>>
+    /\ UNCHANGED <<heap, fut, nops, destroyed, gen, rq, run, cst, stop, wdl>>
 
 (* the worker ended and the queue drained: install_queue_and_call returns, start() returns (:260,:279) *)
 StartReturn ==
     /\ Mode = "start" /\ phase = "run" /\ run = -1
     /\ phase' = "returned"
-    /\ UNCHANGED <<heap, fut, ret, nops, destroyed, now, gen, rq, run, cst, stop, wpc, wdl>>
+    /\ UNCHANGED <<heap, fut, nops, destroyed, now, gen, rq, run, cst, stop, wpc, wdl>>
 
 (* ~scheduler after start() returned: sleepers still pending are resumed (inline) with no-value *)
 DestroyAfterStart ==
     /\ Mode = "start" /\ phase = "returned"
     /\ phase' = "destroyed" /\ destroyed' = TRUE
-    /\ fut' = DropAll(fut)
+    /\ fut' = [k \in Slots |-> FreeRec]
     /\ heap' = <<>>
-    /\ cst' = [c \in 1..NC |-> "done"]
-    /\ ret' = R("none", 0)
+    /\ cst' = [c \in 1..NC |-> IF cst[c].st = "sleep" THEN [st |-> "done", wst |-> "canceled", wat |-> now]
+                                                        ELSE cst[c]]
     /\ UNCHANGED <<nops, now, gen, rq, run, stop, wpc, wdl>>
 
 StartNext ==
-    \/ \E c \in 1..NC, tp \in TPs, id \in Ids : CoSleep(c, tp, id)
-    \/ \E c \in 1..NC, id \in CancelIds, x \in {"exc", "custom"} : CoCancel(c, id, x)
+    \/ \E c \in 1..NC, tp \in TPs, id \in Ids, ntf \in {0, 1} : CoSleep(c, tp, id, ntf)
+    \/ \E c \in 1..NC, id \in CancelIds, x \in Excs, k \in Slots0 : CoCancel(c, id, x, k)
     \/ \E c \in 1..NC : CoFinish(c)
-    \/ WorkerPoll
+    \/ \E k \in Slots0 : WorkerPoll(k)
     \/ WorkerWait
     \/ StartReturn
     \/ DestroyAfterStart
@@ -419,127 +433,134 @@ Next == ManualNext \/ StartNext
 Spec == Init /\ [][Next]_vars /\ WF_vars(Next)
 
 -----------------------------------------------------------------------------
-(* Part 5: properties (C12) *)
+(* Part 5: properties (C12).
 
-FutStates == {"pending", "done", "canceled", "exc", "custom"}
+   Every call is a deterministic function of the state and its arguments, computed by the operators
+   of Part 2 (the action's output parameters are fixed by a guard to what the operator yields).  The
+   contract of a call is therefore stated as an invariant "in every reachable state, for every
+   argument the call may be given, the result satisfies ..." -- TLC evaluates it once per state
+   instead of once per transition -- and what a STEP may change is stated as action properties that
+   do not need to know which call the step was. *)
 
 TypeOK ==
-    /\ \A i \in 1..Len(heap) : heap[i].k \in 0..Len(fut)
-    /\ \A k \in 1..Len(fut) : fut[k].st \in FutStates
-    /\ Len(fut) <= MaxSleeps
+    /\ \A i \in 1..Len(heap) : heap[i].k \in Slots0
+    /\ \A k \in Slots : fut[k].st \in {"free", "pending"}
+    /\ Len(heap) <= MaxHeap
 
 (* the array is a min-heap on the time point at every call boundary *)
 HeapWellFormed == IsHeap(heap)
 
-(* a pending sleep owns exactly one entry with a set promise, with its time point; a completed one owns none *)
+(* a pending sleep owns exactly one entry with a set promise, carrying its time point; a free slot owns
+   none: there is never a second promise for a sleep, and no pending sleep is forgotten by the heap *)
 LiveMatchesPending ==
-    \A k \in 1..Len(fut) :
+    \A k \in Slots :
         LET own == {i \in 1..Len(heap) : heap[i].k = k} IN
-        IF fut[k].st = "pending" /\ ~destroyed
-          THEN Cardinality(own) = 1 /\ \A i \in own : heap[i].tp = fut[k].tp
-          ELSE own = {}
+        IF Pending(k) THEN Cardinality(own) = 1 /\ \A i \in own : heap[i].tp = fut[k].tp
+        ELSE own = {}
 
-(* a sleep never completes (normally) before its time point *)
-NeverEarly == (Mode = "start" \/ TrackAt) => \A k \in 1..Len(fut) : fut[k].st = "done" => fut[k].at >= fut[k].tp
-(* the same on the step that completes it (needs no ghost): only get_expired(now) / the worker's poll
-   complete a sleep normally, and only with tp <= now *)
-NeverEarlyStep ==
-    [][\A k \in 1..Len(fut) : (fut[k].st = "pending" /\ fut'[k].st = "done") =>
-          \/ \E t \in Nows : GetExpired(t) /\ fut[k].tp <= t
-          \/ WorkerPoll /\ fut[k].tp <= now]_vars
+(* the slots whose sleep a step completes / creates *)
+Completed == {k \in Slots : Pending(k) /\ fut'[k].st = "free"}
+Created == {k \in Slots : ~Pending(k) /\ fut'[k].st = "pending"}
+LiveEntries(h) == {h[i] : i \in Live(h)}
 
-(* each sleep future changes state at most once, and futures are never forgotten *)
+(* each sleep completes exactly once: a pending sleep changes only by being completed (retired); the
+   completing call reports it as its output (by construction of the actions); with LiveMatchesPending
+   nothing is left that could complete it a second time.  Only a destructor completes more than one
+   sleep in one call; no call both completes and creates. *)
 ExactlyOncePerSleep ==
-    [][/\ Len(fut') >= Len(fut)
-       /\ \A k \in 1..Len(fut) : fut[k].st # "pending" => fut'[k] = fut[k]
-       /\ \A k \in 1..Len(fut) : fut'[k].tp = fut[k].tp /\ fut'[k].co = fut[k].co]_vars
+    [][/\ \A k \in Slots : (Pending(k) /\ fut'[k] # fut[k]) => k \in Completed
+       /\ destroyed' = destroyed => Cardinality(Completed) <= 1
+       /\ Cardinality(Created) <= 1 /\ (Created # {} => Completed = {})]_vars
 
-(* only a destructor completes more than one sleep in one call *)
-OnePerCall ==
-    [][destroyed' = destroyed => Cardinality({k \in 1..Len(fut) : fut'[k] # fut[k]}) <= 1]_vars
+(* a step touches the set promises of exactly the sleeps it completes or creates: every other pending
+   entry stays (same time point, same identifier).  In particular a cancel()/remove() that returns
+   false / empty and a get_expired() that returns a time point have NO effect beyond shedding emptied
+   entries (CancelFalseNoEffect). *)
+CancelFalseNoEffect ==
+    [][/\ \A e \in LiveEntries(heap) : e.k \notin Completed => e \in LiveEntries(heap')
+       /\ \A e \in LiveEntries(heap') : e \in LiveEntries(heap) \/ e.k \in Created
+       /\ (Completed = {} /\ Created = {} /\ ~gen'.stp) => (fut' = fut /\ gen' = gen /\ cst' = cst /\ (run >= 1 => rq' = rq))]_vars
+
+(* the `now` values get_expired_lk can be called with in this state *)
+CallNows == IF Mode = "manual" THEN Nows ELSE {now}
+
+(* a sleep never completes normally before its time point (only get_expired_lk completes normally) *)
+NeverEarly ==
+    \A t \in CallNows : LET r == GetExpiredLk(heap, t) IN r.k # 0 => (Pending(r.k) /\ fut[r.k].tp <= t)
 
 (* a normal completion takes a sleep with the minimal time point among all sleeps pending at that
    moment (with equal time points: whichever the heap surfaces -- the array order decides) *)
+Earliest(k) == \A j \in Slots : Pending(j) => fut[k].tp <= fut[j].tp
 DeadlineOrder ==
-    [][\A k \in 1..Len(fut) : (fut[k].st = "pending" /\ fut'[k].st = "done") =>
-          \A j \in 1..Len(fut) : fut[j].st = "pending" => fut[k].tp <= fut[j].tp]_vars
+    \A t \in CallNows : LET r == GetExpiredLk(heap, t) IN r.k # 0 => Earliest(r.k)
 
-(* manual mode: get_expired(now) hands out a promise whenever a pending sleep is due (tp <= now),
-   otherwise the earliest pending time point (max() when nothing is pending) *)
-PendingTps == {fut[k].tp : k \in {j \in 1..Len(fut) : fut[j].st = "pending"}}
+(* get_expired(now) hands out a promise whenever a pending sleep is due (tp <= now), otherwise the
+   earliest pending time point (max() when nothing is pending) *)
+PendingTps == {fut[k].tp : k \in {j \in Slots : Pending(j)}}
 MinOf(S) == IF S = {} THEN Inf ELSE CHOOSE m \in S : \A n \in S : m <= n
 PromptManual ==
-    [][\A t \in Nows : GetExpired(t) =>
-          /\ (ret'.kind = "promise") <=> (\E p \in PendingTps : p <= t)
-          /\ ret'.kind = "promise" => fut[ret'.v].st = "pending" /\ fut'[ret'.v].st = "done" /\ (TrackAt => fut'[ret'.v].at = t)
-          /\ ret'.kind = "time" => ret'.v = MinOf(PendingTps) /\ fut' = fut]_vars
+    \A t \in CallNows : LET r == GetExpiredLk(heap, t) IN
+        /\ (r.k # 0) <=> (\E p \in PendingTps : p <= t)
+        /\ r.k = 0 => r.next = MinOf(PendingTps)
 
-(* cancel(id[,e]) reports true iff an entry with a set promise carries id; then exactly one such sleep
-   gets exactly the requested exception and nothing else changes *)
-CancelProp(id, x) ==
-    LET cand == {heap[i].k : i \in LiveWithId(heap, id)} IN
-    /\ (ret'.kind = "true") <=> (cand # {})
-    /\ cand # {} => \E k \in cand : /\ fut'[k].st = x
-                                    /\ \A j \in 1..Len(fut) : j # k => fut'[j] = fut[j]
-    /\ Len(fut') = Len(fut)
+(* cancel(id[,e]) / remove(id) report true / a promise iff an entry with a set promise carries id, and
+   then hit exactly one such sleep (the actions complete exactly the slot the operator returns, with
+   exactly the requested exception) *)
 CancelHitsOne ==
-    [][\A id \in CancelIds, x \in {"exc", "custom"} :
-          /\ Cancel(id, x) => CancelProp(id, x)
-          /\ \A c \in 1..NC : CoCancel(c, id, x) => CancelProp(id, x)]_vars
-
-(* ... and false without any other effect: no future changes, the set of pending entries is the same
-   (emptied entries on top of the heap may be shed) *)
-LiveEntries(h) == {h[i] : i \in Live(h)}
-CancelFalseNoEffect ==
-    [][ret'.kind \in {"false", "empty"} => fut' = fut /\ LiveEntries(heap') = LiveEntries(heap) /\ gen' = gen]_vars
-
-(* remove(id) hands out the promise of exactly one pending sleep with that id, or an empty promise *)
-RemoveHitsOne ==
-    [][\A id \in CancelIds : Remove(id) =>
-          LET cand == {heap[i].k : i \in LiveWithId(heap, id)} IN
-          /\ (ret'.kind = "removed") <=> (cand # {})
-          /\ ret'.kind = "removed" => ret'.v \in cand /\ fut'[ret'.v].st = "canceled"]_vars
+    \A id \in CancelIds \cup {IntervalId} :
+        LET r == RemoveLk(heap, id)
+            cand == {heap[i].k : i \in LiveWithId(heap, id)}
+        IN /\ (r.k # 0) <=> (cand # {})
+           /\ r.k # 0 => r.k \in cand
 
 (* schedule() notifies the condition variable iff the new entry is the new earliest deadline *)
 NotifyWhenEarliest ==
-    [][(ret'.kind = "sched" /\ Len(fut') = Len(fut) + 1) =>
-          LET tp == fut'[Len(fut')].tp IN
-          (ret'.v = 1) <=> (\A i \in 1..Len(heap) : tp < heap[i].tp)]_vars
+    \A tp \in AllTps : NotifyNeeded(heap, tp) <=> (\A i \in 1..Len(heap) : tp < heap[i].tp)
 
 (* sleeps pending at destruction are cancelled rather than left hanging *)
-DestroyCancelsPending == destroyed => \A k \in 1..Len(fut) : fut[k].st # "pending"
+DestroyCancelsPending ==
+    [][(destroyed' /\ ~destroyed) => Completed = {k \in Slots : Pending(k)}]_vars
+NothingAfterDestroy == destroyed => heap = <<>> /\ \A k \in Slots : ~Pending(k)
 
-(* interval(): a stop request never leaves the generator parked in a sleep (it would hang its caller) *)
-IntervalStopEnds == gen.stp => gen.st # "sleep"
+(* interval(): the generator sleeps iff its sleep is pending; a stop request never leaves it parked
+   in a sleep (that would hang whoever awaits it) *)
+IntervalConsistent ==
+    /\ (gen.st = "sleep") <=> (\E k \in Slots : Pending(k) /\ fut[k].co = -1)
+    /\ gen.stp => gen.st # "sleep"
 
 (* start mode ------------------------------------------------------------ *)
 
 (* under virtual time a sleeper is woken exactly at its time point (at once if it was already past) *)
 PromptWhenIdle ==
-    Mode = "start" =>
-      \A k \in 1..Len(fut) : fut[k].st = "done" =>
-          fut[k].at = (IF fut[k].tp > fut[k].sa THEN fut[k].tp ELSE fut[k].sa)
+    (Running(0) /\ wpc = "poll") =>
+        LET r == GetExpiredLk(heap, now) IN
+        r.k # 0 => now = (IF fut[r.k].tp > fut[r.k].sa THEN fut[r.k].tp ELSE fut[r.k].sa)
 
-(* the clock never runs past a pending deadline while the scheduler runs *)
+(* ... and the sleeper sees that time when it runs: the clock does not move while somebody is ready *)
+ClockStandsWhileReady ==
+    [][now' # now => (rq = <<>> /\ run = 0 /\ \A c \in 1..NC : cst[c].st # "ready")]_vars
+
+(* the clock never runs past a pending deadline *)
 NoOversleep ==
-    (Mode = "start" /\ phase \in {"pre", "run"} /\ wpc # "exit") =>
-      \A k \in 1..Len(fut) : fut[k].st = "pending" => (now <= fut[k].tp \/ now = fut[k].sa)
+    (Mode = "start" /\ phase \in {"pre", "run"}) =>
+      \A k \in Slots : Pending(k) => (now <= fut[k].tp \/ now = fut[k].sa)
 
 (* a sleeping coroutine sleeps on exactly one pending future; a ready one is queued or runs *)
 CoroConsistent ==
-    Mode = "start" /\ phase \in {"pre", "run"} =>
-      \A c \in 1..NC :
-        /\ (cst[c] = "sleep") <=> (\E k \in 1..Len(fut) : fut[k].co = c /\ fut[k].st = "pending")
-        /\ Cardinality({k \in 1..Len(fut) : fut[k].co = c /\ fut[k].st = "pending"}) <= 1
-        /\ (cst[c] = "ready") <=> (run = c \/ \E i \in 1..Len(rq) : rq[i] = c)
-        /\ Cardinality({i \in 1..Len(rq) : rq[i] = c}) <= 1
+    (Mode = "start" /\ phase \in {"pre", "run"}) =>
+      /\ \A c \in 1..NC :
+          /\ Cardinality({k \in Slots : Pending(k) /\ fut[k].co = c}) = (IF cst[c].st = "sleep" THEN 1 ELSE 0)
+          /\ Cardinality({i \in 1..Len(rq) : rq[i] = c}) + (IF run = c THEN 1 ELSE 0)
+                = (IF cst[c].st = "ready" THEN 1 ELSE 0)
+      /\ (phase = "run" /\ wpc # "exit") => Cardinality({i \in 1..Len(rq) : rq[i] = 0}) + (IF run = 0 THEN 1 ELSE 0) = 1
 
 (* start() returns only after the awaited coroutine finished; the worker leaves only when stopped *)
 ReturnsWhenFinished ==
-    /\ phase \in {"returned", "destroyed"} => (cst[1] = "done" /\ stop)
+    /\ phase \in {"returned", "destroyed"} => (cst[1].st = "done" /\ stop /\ wpc = "exit")
     /\ (Mode = "start" /\ wpc = "exit") => stop
+    /\ (phase = "run" /\ run = -1) => wpc = "exit"
 NoHang == phase # "hung"
-(* ... and it does return (and the scheduler can be destroyed): every terminal state is "destroyed" *)
+(* ... and it does return (and the scheduler can be destroyed) *)
 StartTerminates == Mode = "start" => <>(phase = "destroyed")
 
 =============================================================================
